@@ -160,6 +160,8 @@ pub struct Cli {
     pub input: String,
     /// v2: a second input file given right behind the first (`customasm <INPUT-FILES...>`)
     pub extra_input: bool,
+    /// name of the second input file (v3: sometimes the very name that would be derived for an output of the first)
+    pub extra_name: String,
     pub groups: Vec<Group>,
     pub args: Vec<String>,
     pub iters: Option<String>,
@@ -284,7 +286,9 @@ pub fn gen_cli(t: &mut Tape) -> Cli {
         }
     };
     let extra_input = crate::engine::gen_version() >= 2 && t.chance(1, 5);
-    place(t, &mut per_group, if extra_input { vec![input.clone(), EXTRA_INPUT.0.to_string()] } else { vec![input.clone()] });
+    let extra_name = if extra_input && crate::engine::gen_version() >= 3 && t.chance(1, 3) { derive_name(&input, *t.pick(&["bin", "txt", "mlb"])) } else { EXTRA_INPUT.0.to_string() };
+    let extra_name = if extra_name == input { EXTRA_INPUT.0.to_string() } else { extra_name };
+    place(t, &mut per_group, if extra_input { vec![input.clone(), extra_name.clone()] } else { vec![input.clone()] });
     if quiet {
         let q = if t.flip() { "-q" } else { "--quiet" };
         place(t, &mut per_group, vec![q.to_string()]);
@@ -317,7 +321,7 @@ pub fn gen_cli(t: &mut Tape) -> Cli {
         }
         args.extend(g);
     }
-    Cli { program, input, extra_input, groups, args, iters, defines, quiet, help_or_version }
+    Cli { program, input, extra_input, extra_name, groups, args, iters, defines, quiet, help_or_version }
 }
 
 #[derive(Debug)]
@@ -358,8 +362,8 @@ pub fn expectation(cli: &Cli, docs: &[FormatDoc]) -> Expect {
             names.push((fmt, Some(o.clone())));
         } else {
             let d = derive_name(&cli.input, extension(&fmt));
-            if d == cli.input {
-                return Expect::RejectBeforeAssembling(format!("derived output name `{}` equals the input name", d));
+            if d == cli.input || cli.extra_input && d == cli.extra_name {
+                return Expect::RejectBeforeAssembling(format!("derived output name `{}` equals the name of an input file", d));
             }
             names.push((fmt, Some(d)));
         }
@@ -371,7 +375,7 @@ pub fn expectation(cli: &Cli, docs: &[FormatDoc]) -> Expect {
     let mut fs = MemFs::new();
     fs.add(&cli.input, PROGRAMS[cli.program].1.as_bytes().to_vec());
     if cli.extra_input {
-        fs.add(EXTRA_INPUT.0, EXTRA_INPUT.1.as_bytes().to_vec());
+        fs.add(&cli.extra_name, EXTRA_INPUT.1.as_bytes().to_vec());
     }
     let mut opts = asm::AssemblyOptions::new();
     opts.max_iterations = budget;
@@ -380,7 +384,7 @@ pub fn expectation(cli: &Cli, docs: &[FormatDoc]) -> Expect {
         opts.driver_symbol_defs.push(asm::DriverSymbolDef { name: n.clone(), value: customasm::expr::Value::make_integer(customasm::util::BigInt::new(val, None)) });
     }
     let mut report = diagn::Report::new();
-    let roots: Vec<&str> = if cli.extra_input { vec![cli.input.as_str(), EXTRA_INPUT.0] } else { vec![cli.input.as_str()] };
+    let roots: Vec<&str> = if cli.extra_input { vec![cli.input.as_str(), cli.extra_name.as_str()] } else { vec![cli.input.as_str()] };
     let res = asm::assemble(&mut report, &opts, &mut fs, &roots);
     let (Some(out), Some(decls), Some(defs)) = (res.output.as_ref(), res.decls.as_ref(), res.defs.as_ref()) else {
         return Expect::AssemblyFails;
@@ -462,7 +466,7 @@ impl Property for C18 {
         let mut fs = MemFs::new();
         fs.add(&cli.input, PROGRAMS[cli.program].1.as_bytes().to_vec());
         if cli.extra_input {
-            fs.add(EXTRA_INPUT.0, EXTRA_INPUT.1.as_bytes().to_vec());
+            fs.add(&cli.extra_name, EXTRA_INPUT.1.as_bytes().to_vec());
             ctx.label("two-inputs");
         }
         let r = sut::drive(&mut fs, &cli.args);
@@ -529,7 +533,7 @@ impl Property for C18 {
             let dir = realbin::scratch("c18");
             let mut inputs = vec![(cli.input.clone(), PROGRAMS[cli.program].1.as_bytes().to_vec())];
             if cli.extra_input {
-                inputs.push((EXTRA_INPUT.0.to_string(), EXTRA_INPUT.1.as_bytes().to_vec()));
+                inputs.push((cli.extra_name.clone(), EXTRA_INPUT.1.as_bytes().to_vec()));
             }
             realbin::materialize(&dir, &inputs);
             let mut args = cli.args.clone();
@@ -543,7 +547,7 @@ impl Property for C18 {
             let mut files = realbin::snapshot(&dir);
             // the snapshot names files relative to the scratch directory: compare modulo a leading `./`
             let norm = |n: &str| n.trim_start_matches("./").to_string();
-            files.retain(|f| f.0 != norm(&cli.input) && f.0 != EXTRA_INPUT.0);
+            files.retain(|f| f.0 != norm(&cli.input) && f.0 != norm(&cli.extra_name));
             let _ = std::fs::remove_dir_all(&dir);
             let stdout = String::from_utf8_lossy(&r.stdout).to_string();
             let res: Option<(String, String)> = if r.signal.is_some() || r.timed_out {
